@@ -94,6 +94,7 @@ class _Run:
         self.end: Dict[str, str] = {}          # receiver -> how it ended
         self.in_op: Dict[str, Optional[str]] = {}
         self.injected_cancel: set = set()
+        self.scripted_end_seq: Optional[int] = None   # everything after this event is the harness draining
         self.sf_calls: List[Dict[str, Any]] = []  # one record per send_from call of a sender actor
         self.must_surface_cancel: set = set()     # receivers cancelled while truly blocked in the channel
         self.direct_receivers: set = set()        # receivers calling receive() / __anext__ / async-for themselves
@@ -681,7 +682,7 @@ class _Run:
             aux.append(mk(self.late_sender(dict(mode=late - 1)), name="late"))
 
         loop.run_sim()
-        self.ev("sim", "note", "quiescent", f"t={loop.time() / MS:g}ms")
+        self.scripted_end_seq = self.ev("sim", "note", "quiescent", f"t={loop.time() / MS:g}ms")
 
         # -- scripted phase over: a closed channel must not have stranded anybody
         closed_in_script = bool(self.ch.closed())
@@ -857,6 +858,24 @@ class _Run:
                 rule = "C12.R6" if self._had_fault() else "C12.R2"
                 raise Violation(rule, sig, f"send of {it} returned at #{s}, before close #{close_seq}, "
                                            f"but nobody ever received it")
+        # R2, second half: "receivers that keep receiving until the channel is done" get every such item - if one
+        # of the scripted receivers did see the end of the channel, no obliged item may have been left behind for
+        # the harness's drain (the end was announced while items of completed sends were still to come)
+        saw_end = sorted(a for a, e in self.end.items()
+                         if a.startswith("r") and e in ("None", "ChannelDone", "end-of-iteration"))
+        if saw_end and self.scripted_end_seq is not None:
+            for it, s in sent_ret.items():
+                if (s < close_seq or it in self.sent_before_own_close) and it in recvd:
+                    rs, who = recvd[it][0]
+                    if rs > self.scripted_end_seq and s < self.scripted_end_seq:
+                        # with a cancelled / timed-out receiver in the history this is the known weakness of
+                        # done() (a waiter that has been cancelled but has not run yet still counts as about to take
+                        # an item): classed apart, so that the same symptom WITHOUT any such fault stays a violation
+                        sig = "left-behind-after-cancel-or-timeout" if self._had_fault() else "left-behind"
+                        raise Violation("C12.R6" if self._had_fault() else "C12.R2", sig,
+                                        f"send of {it} completed at #{s}, before the close; receiver(s) {saw_end} kept receiving "
+                                        f"until they saw the end of the channel, yet the item only came out afterwards "
+                                        f"(to {who} at #{rs}, the harness draining the channel)")
         # R3: per receiver, a sender's items arrive in the order sent.  With several receivers the order
         # of their *return events* is not what the statement fixes (an implementation that hands items
         # to waiting receivers directly lets a later receiver return first), so the global order is
